@@ -151,3 +151,54 @@ def checksig_rules(ex, sig, L, segwit, fl, fad=0):
     if not raised:
         claims["result_is_the_verification"] = iff(r == True, success)   # noqa: E712
     return claims
+
+
+# ------------------------------------------------------------------ tapscript programs (signature-free) against BIP342
+from refs import core_script as _core
+from btclib import hashes as _hashes
+
+# IF NOTIF ELSE ENDIF 1 0 0xff(invalid) SUCCESS80 CAT(=SUCCESS126) VERIF RETURN NOP CHECKMULTISIG NOP1 DUP DROP push(1 byte) truncated-push CODESEPARATOR
+_TAP_ALPHABET = ["63", "64", "67", "68", "51", "00", "ff", "50", "7e", "65", "6a", "61", "ae", "b0", "76", "75", "0107", "02", "ab", "fe"]
+
+
+def _tap_params(tier):
+    import itertools
+    out = []
+    for n in range(1, 4):
+        for combo in itertools.product(_TAP_ALPHABET, repeat=n):
+            if n == 3:
+                interesting = sum(c in ("ff", "50", "7e", "fe", "02", "ae") for c in combo)
+                if interesting == 0 or (tier == "quick" and not (combo[0] in ("63", "64", "00", "51", "ff", "02") and interesting == 1)):
+                    continue
+            out.append("".join(combo))
+    if tier != "quick":
+        for combo in itertools.product(["63", "64", "67", "68", "51", "00", "ff", "50", "ae", "02"], repeat=4):
+            if "ff" in combo or "50" in combo:
+                out.append("".join(combo))
+    return [dict(program=p, lens=[1] if i % 3 else [1, 1], discourage=int(i % 2)) for i, p in enumerate(out)]
+
+
+@ob("C08", "tapscript_programs_vs_bip342", quick=_tap_params("quick"), thorough=_tap_params("thorough"),
+    bound="every tapscript of 1..3 (thorough: 4) items from {IF NOTIF ELSE ENDIF 1 0 0xff OP_SUCCESS80 OP_CAT(=OP_SUCCESS126) VERIF RETURN NOP CHECKMULTISIG NOP1 DUP DROP "
+          "push1 truncated-push CODESEPARATOR 0xfe} run by verify_script_path_vc0 on one or two symbolic one-byte witness elements, DISCOURAGE_OP_SUCCESS on and off: "
+          "accepted exactly when BIP342's execution (OP_SUCCESSx pre-scan, MINIMALIF as consensus, no op limit, exactly one true element at the end) accepts",
+    functions=["btclib.script.engine.tapscript.verify_script_path_vc0", "btclib.script.engine.tapscript._run_ops", "btclib.script.taproot.parse"],
+    outside=["signature opcodes in tapscript programs (covered by tapscript_checksig_rules_vs_bip342)", "programs longer than 4 items"], min_ok=1, timeout=300)
+def tapscript_programs(ex, program, lens, discourage):
+    script = bytes.fromhex(program)
+    flags = ScriptFlag.DISCOURAGE_OP_SUCCESS if discourage else ScriptFlag(0)
+    init = [ex.bytes(f"s{k}_", n) for k, n in enumerate(lens)]
+    tx, prevouts = _ctx()
+    lib_stack = list(init)
+    try:
+        tapscript.verify_script_path_vc0(script, lib_stack, prevouts, tx, 0, b"", 100, flags)
+        lib_ok = True
+    except (ScriptError, BTClibValueError):
+        lib_ok = False
+    ref_stack = list(init)
+    try:
+        _core.execute_tapscript(ref_stack, script, discourage_op_success=bool(discourage), hashes={})
+        ref_ok = True
+    except _core.ScriptErr:
+        ref_ok = False
+    return {"same_verdict_as_bip342": lib_ok == ref_ok}
